@@ -28,6 +28,7 @@ import collections.abc  # noqa: F401
 import collections
 import json
 import os
+import re
 import subprocess
 import sys
 
@@ -105,8 +106,10 @@ def apply_op(rig, op):
         # file-system fault by an outside actor (operator, cleaner): rotate copy op[2] of log `path` disappears
         paths = rig.logs[path].paths
         if len(paths) > op[2] and os.path.exists(paths[op[2]]):
+            with open(paths[op[2]], "rb") as f:      # what is lost with it: the record ids the copy held
+                held = sorted(set(int(x) for x in re.findall(rb"\tr(\d{6})", f.read())))
             os.remove(paths[op[2]])
-            _emit("U %s %d" % (path, op[2]))
+            _emit("U %s %d %s" % (path, op[2], ",".join(str(i) for i in held) or "-"))
         return
     share = rig.shares[path]
     if kind == "update":
@@ -125,6 +128,8 @@ def apply_op(rig, op):
             seq.append(op[3])
     elif kind == "push":
         share.push(odict([(k, v) for k, v in op[2]]))
+    elif kind == "pushraw":
+        share.push(op[2])
     else:
         raise ValueError("unknown op %r" % (op,))
 
@@ -310,6 +315,15 @@ def child_run(job):
             return ret
 
         log.log, log.flush, log.cycle = w_log, w_flush, w_cycle
+        real_deck = log.logDeck
+
+        def w_deck():                    # the deck rule writes through logDeck, not through log
+            n = len(log.loggees.items()[0][1].deck) if log.loggees else 0
+            real_deck()
+            if n:
+                written[name] = cur["id"]
+                _emit("W %s %d" % (name, cur["id"]))
+        log.logDeck = w_deck
 
     for name, log in rig.logs.items():
         instrument(name, log)
